@@ -190,6 +190,11 @@ def main():
         for r in herr[:3]:
             print('HARNESS-FAILURE job %d: %s' % (r['index'], r['harness_error'][:2500]))
         return core.EXIT_HARNESS
+    inproc_only = [r for r in results if r.get('inproc_only')]
+    for r in inproc_only[:3]:
+        print('NOTE job %d: a variant differed when run in-process but not in a pristine forked child '
+              '(process-global state leaking between in-process runs; not a verdict): %s' % (
+                  r['index'], json.dumps(r['inproc_only'][0], default=str)[:600]))
 
     # determinism of the harness itself: the same job index run again gives the same bytes
     sample = [r for r in results if not r['violation']][:3]
@@ -307,6 +312,8 @@ def coverage(results, cal, wall, workers, known_hits, fixed, reported, root, tho
                             'annotationparser.py', 'introspectablepass.py', 'girwriter.py', 'xmlwriter.py', 'girparser.py', 'cachestore.py (real file system)', 'ast.py', 'message.py', 'utils.py'],
         'stub_components': ['C lexer/parser extension -> sim/cfront.py (calibrated)', 'pkg-config -> /bin/true'],
         'calibration': {k: v for k, v in cal.items() if k != 'problems'},
+        'variant_execution': 'variants run in-process in per-hash-seed servers; any difference is re-checked with every run in a pristine forked child before it is reported; baselines and dependency scans always run in pristine forked children',
+        'differences_seen_only_in_process': sum(1 for r in results if r.get('inproc_only')),
         'known_findings_matched': known_hits, 'fixed_findings_in_force': [f for f in fixed if 'property=C16' in f],
         'violations_reported': reported,
     }
